@@ -445,6 +445,17 @@ func (fc *FnCtx) loopHead(li *loopInfo, in *State, inReach Term) {
 	if li.hiddenIdx != nil {
 		if v, ok := hs.locals[li.hiddenIdx].(string); ok {
 			fc.assume(app("<=", "(- 1)", v))
+			// the loop test is `idx+1 < n` with n computed once before the loop
+			for _, in := range li.head.Instrs {
+				if bo, ok := in.(*ssa.BinOp); ok && bo.Op == token.LSS {
+					if nv, ok := fc.vals[bo.Y]; ok {
+						if nt, ok := nv.(string); ok {
+							fc.assume(and(app("<", v, app("imax", nt, "0")), app("<=", nt, "281474976710656")))
+						}
+					}
+					break
+				}
+			}
 		}
 	}
 	envH := fc.loopEnv(hs, li)
